@@ -17,12 +17,13 @@ def run(tier, seed):
     rc, out = common.sh("timeout 1800 %s ble %s > %s" % (common.GVRUN, cf, ob))
     if rc != 0:
         raise Broken("gvrun ble failed", out[-2000:])
-    rc, out = common.sh("timeout 3000 %s ble < %s" % (common.GVMODEL, ob))
-    m = re.search(r"SUMMARY cases=(\d+) distinct=(\d+) mismatches=(\d+) c07_failures=(\d+) c08_failures=(\d+)", out)
+    # every 7th (quick) / 19th (thorough) case is also run through the binary64 reading of the translated text
+    rc, out = common.sh("timeout 3000 %s ble %d < %s" % (common.GVMODEL, 7 if tier == "quick" else 19, ob))
+    m = re.search(r"SUMMARY cases=(\d+) distinct=(\d+) mismatches=(\d+) c07_failures=(\d+) c08_failures=(\d+) binary64_compared=(\d+)", out)
     if rc != 0 or not m:
         raise Broken("gvmodel ble failed", out[-2000:])
     r = dict(lines=lines, out=out, cases=int(m.group(1)), distinct=int(m.group(2)), mism=int(m.group(3)),
-             bad7=int(m.group(4)), bad8=int(m.group(5)))
+             bad7=int(m.group(4)), bad8=int(m.group(5)), nf=int(m.group(6)))
     _cache[key] = r
     return r
 
@@ -51,10 +52,11 @@ def standard(res, args, pid, theorems, note):
                    rule="13 decoders: every raw value of every field (exhaustive up to %d bits, boundary/one-hot/random beyond) in three contexts of "
                         "the remaining bits (all-zero, all-one, random), all 256 values of every enumerated byte, all lengths 0..64 x {zero, ones, "
                         "random} x {cap == len, spare capacity poisoned with 0xA5 / 0xFF}, complete records with six kinds of suffix; every "
-                        "result is compared with the translated decoder (translator validation) and judged by spec_decode of the layout. %s"
+                        "result is compared with the translated decoder (translator validation; every 7th/19th case also bit for bit with the same "
+                        "translated text read in IEEE-754 binary64, Gen/BleImplF.v) and judged by spec_decode of the layout. %s"
                         % (12 if res.tier == "quick" else 16, note),
                    samples=lines[:: max(1, len(lines) // 6)][:6], disagreements_checked=r["mism"],
-                   judge_failures=r["bad7"] if pid == "C07" else r["bad8"])
+                   judge_failures=r["bad7"] if pid == "C07" else r["bad8"], binary64_compared=r["nf"])
     for l in r["out"].splitlines():
         if l.startswith("JUDGE-FAIL %s " % pid):
             f = l.split()
